@@ -413,6 +413,18 @@ func (e *Env) pkgOf(t types.Type) *types.Package {
 	if p := pkgOfType(t); p != nil {
 		return p
 	}
+	// unnamed struct (e.g. `var registry struct{...}`): its fields carry the declaring package
+	u := t
+	if pt, ok := u.Underlying().(*types.Pointer); ok {
+		u = pt.Elem()
+	}
+	if st, ok := u.Underlying().(*types.Struct); ok && st.NumFields() > 0 {
+		for i := 0; i < st.NumFields(); i++ {
+			if !st.Field(i).Exported() && st.Field(i).Pkg() != nil {
+				return st.Field(i).Pkg()
+			}
+		}
+	}
 	return e.pkg
 }
 
